@@ -7,11 +7,11 @@ from __future__ import annotations
 
 import random
 
-ENV_NAMES = ["HOME", "PATH", "X", "_y1", "WAKKA", "ünï"]
+ENV_NAMES = ["HOME", "PATH", "X", "_y1", "WAKKA", "ünï", "µ"]
 PY_SUBEXPRS = ["x", "1 + 2", "f(y)", "None or 'a'", "a.b[0]", "[i for i in z]", "not q"]
 WORD_CHARS_SAFE = "abcxyzABC019_-./=:,+%^~*"
 PLAIN_WORDS = [
-    "ls", "-l", "--opt=val", "1e5x", "a.b/c", "..", ".", "/usr/bin", "~", "~/x", "*.py", "x=1", "a,b", "a:b", "+x", "%d", "^a", "grep", "wakka", "ñandú", "日本", "-", "--", "2", "3.5", "0x1f", "a+b", "a*b", "@", "a@b", "|", "&", ";", "<", ">", "2>", ">>", "a|b", "a;b", "x<y", "echo", "hello_world", "file.txt", "1>2", "C:", "k=v,w", "-9", "**", "//", "->", "==", "<=", ":=", "a-b-c", "_", "__x__", "e", "E5", "1_000", "07", "a..b", "...",
+    "ls", "-l", "--opt=val", "1e5x", "a.b/c", "..", ".", "/usr/bin", "~", "~/x", "*.py", "x=1", "a,b", "a:b", "+x", "%d", "^a", "grep", "wakka", "ñandú", "日本", "µ-law", "--enc=µ", "ﬁle.txt", "Ǆx", "ª1", "-", "--", "2", "3.5", "0x1f", "a+b", "a*b", "@", "a@b", "|", "&", ";", "<", ">", "2>", ">>", "a|b", "a;b", "x<y", "echo", "hello_world", "file.txt", "1>2", "C:", "k=v,w", "-9", "**", "//", "->", "==", "<=", ":=", "a-b-c", "_", "__x__", "e", "E5", "1_000", "07", "a..b", "...",
 ]
 QUOTED = ['"a b"', "'q'", '"it\'s"', "'--x y'", '""', "r'\\d'", '"ü"', "'''t q'''"]
 METHODS = {
@@ -102,9 +102,13 @@ def gen_construct(r: random.Random, depth: int = 0):
         return k, x, t, "primary"
     if k == "search":
         pre = r.choice(["", "r", "g", "@foo", "p", "f", "rp"])
-        body = r.choice([".*", "[Ff]+i*LE", "#x", "a b", "\\`q"])
+        body = r.choice([".*", "[Ff]+i*LE", "#x", "a b", "\\`q", "it\\`s.*", "\\`quoted\\`/*.py"])
         tok = f"{pre}`{body}`"
         return k, tok, f"__xonsh__.pathsearch({pystr(tok)})", "primary"
+    if k == "pathlit" and r.random() < 0.35:
+        pre = r.choice(["pf", "fp", "Pf", "pF"])
+        q = r.choice(['"', "'"])
+        return k, f"{pre}{q}/tmp/{{user}}{q}", f"__xonsh__.path_literal(f{q}/tmp/{{user}}{q})", "primary"
     if k == "pathlit":
         pre = r.choice(["p", "P", "pr", "rp", "Rp", "pR"])
         body = r.choice(["/foo", "a b", "~/x", ""])
@@ -134,7 +138,7 @@ def gen_construct(r: random.Random, depth: int = 0):
 
 def gen_macro_arg(r: random.Random, depth=0) -> str:
     """An argument text with balanced brackets and complete strings; arbitrary tokens otherwise."""
-    atoms = ["x", "1", "import", "$X", "a b", "if x: y", "'s,t'", '"a)b"', "not  valid   python", "1 +", "x = 5", "lambda: 0", "ls -la", "@", "->", "ñ", "f'{x}'", "a.b", "..", "*args", "**kw", "!", "?", "x?", "`.*`", "3.14e-2", "0x", "for", "a;b", "# c", "  spaced  "]
+    atoms = ["x", "1", "import", "$X", "a b", "if x: y", "'s,t'", '"a)b"', "not  valid   python", "1 +", "x = 5", "lambda: 0", "ls -la", "@", "->", "ñ", "f'{x}'", "a.b", "..", "*args", "**kw", "!", "?", "x?", "`.*`", "3.14e-2", "0x", "for", "a;b", "# c", "  spaced  ", 'f"{n}("', 'f"({n})"', 'f"{x},{y}"', 'f"[{n}"', "f'{a}){b}'", 'f",{x}"', '"s("', "')'", '"],"']
     n = r.randint(1, 4)
     out = []
     for _ in range(n):
